@@ -881,7 +881,57 @@ func runValidator(o *out, r *rng, thorough bool, pid string) {
 			o.sample(map[string]any{"history": desc})
 		}
 	}
-	o.finish("From F3 Require Import GoInt QuorumGen ProgressGen Validator ValidatorRun.")
+	runCacheCorrespondence(o, r, thorough)
+	o.finish("From F3 Require CacheModel.\nFrom F3 Require Import GoInt QuorumGen ProgressGen Validator ValidatorRun.")
+}
+
+// the real internal/caching.GroupedSet against Gpbft/CacheModel.v: every boolean it returns, over random histories of
+// Add / Contains / RemoveGroupsLessThan with small capacities (generations inside a Set, least-recently-used group
+// eviction, pooled Sets re-used for new groups)
+func runCacheCorrespondence(o *out, r *rng, thorough bool) {
+	n := 40
+	if thorough {
+		n = 400
+	}
+	for i := 0; i < n; i++ {
+		mg := 1 + r.intn(3)
+		ms := 1 + r.intn(3)
+		gs := caching.NewGroupedSet(mg, ms)
+		var ops []string
+		added := map[string]bool{}
+		steps := 10 + r.intn(50)
+		for st := 0; st < steps; st++ {
+			g := uint64(r.intn(5))
+			ns := []byte{byte('a' + r.intn(2))}
+			v := []byte{byte(r.intn(6))}
+			key := int(ns[0]-'a')*100 + int(v[0])
+			switch c := r.intn(100); {
+			case c < 50:
+				got, err := gs.Add(g, ns, v)
+				must(err)
+				ops = append(ops, fmt.Sprintf("(CacheModel.CAdd %d %d, %s)", g, key, cBool(got)))
+				if !got && !added[fmt.Sprint(g, key)] {
+					o.violate("the verdict never depends on which messages were validated earlier: the cache answers 'already validated' only for what was added", "c05-cache-phantom-entry",
+						map[string]any{"history": ops}, fmt.Sprintf("Add(%d, %d) reported an existing entry that was never added", g, key))
+				}
+				added[fmt.Sprint(g, key)] = true
+			case c < 90:
+				got, err := gs.Contains(g, ns, v)
+				must(err)
+				ops = append(ops, fmt.Sprintf("(CacheModel.CContains %d %d, %s)", g, key, cBool(got)))
+				if got && !added[fmt.Sprint(g, key)] {
+					o.violate("the verdict never depends on which messages were validated earlier: the cache answers 'already validated' only for what was added", "c05-cache-phantom-entry",
+						map[string]any{"history": ops}, fmt.Sprintf("Contains(%d, %d) is true although it was never added", g, key))
+				}
+			default:
+				b := uint64(r.intn(6))
+				got := gs.RemoveGroupsLessThan(b)
+				ops = append(ops, fmt.Sprintf("(CacheModel.CRemoveLt %d, %s)", b, cBool(got)))
+			}
+		}
+		o.coqCase(fmt.Sprintf("cache history %d (groups %d, set size %d)", i, mg, ms), fmt.Sprintf("CacheModel.crun_ok %d%%nat %d%%nat CacheModel.g_empty %s", mg, ms, cList(ops)))
+		o.count("cache-history", strings.Join(ops, ";"), true)
+	}
 }
 
 // gateVerifier lets the first signature verification after arm() block until release() is called.
